@@ -10,6 +10,7 @@ KIND_PROP = {
     'readd_alloc': 'C09', 'readd_neq': 'C09', 'lookup_none': 'C09', 'lookup_neq': 'C09', 'handle_slots': 'C09',
     'eq_lost': 'C13', 'slots_grew': 'C13', 'progress_direction': 'C13',
     'data_wrong': 'C14', 'data_merge': 'C14',
+    'count_mismatch': 'C10',
 }
 
 _closure_cache = {}
@@ -80,6 +81,8 @@ def judge_record(tmpl, rec):
             want_g = len(C.symmetries(hts[i]))
             if g is not None and g > want_g: out.append(('sym_extra', k, [i, g, want_g]))
             if g is not None and g < want_g: out.append(('sym_missing', k, [i, g, want_g]))
+            gi = st['classes'].get(str(c['id']), {}).get('gcount_int')
+            if gi is not None and g is not None and gi != g: out.append(('count_mismatch', k, [i, gi, g]))
         # class structure
         for i in range(n):
             for j in range(i + 1, n):
